@@ -77,7 +77,7 @@ def engineered_keys(rng, B, count):
 def gen_engineered(c):
     out = []
     rng = c.rng
-    reps = 60 if c.tier == "quick" else 600
+    reps = 200 if c.tier == "quick" else 600
     for B in (8, 16, 32, 64, 128):
         for _ in range(reps):
             # reach table size B by inserting filler keys that are spread out, then the engineered ones
@@ -105,9 +105,12 @@ def gen_engineered(c):
 def gen_random(c):
     out = []
     rng = c.rng
-    reps = 150 if c.tier == "quick" else 2000
+    reps = 400 if c.tier == "quick" else 1200
     for r in range(reps):
-        n = rng.choice([30, 100, 300, 1000]) if c.tier == "quick" else rng.choice([100, 1000, 3000, 10000])
+        if c.tier == "quick":
+            n = rng.choice([30, 100, 300, 1000])
+        else:      # long histories are expensive in the list-based extracted model: few of them
+            n = 10000 if r % 400 == 0 else 3000 if r % 100 == 0 else rng.choice([30, 100, 300, 1000])
         # universe: few distinct low parts x several high parts => collisions modulo every size reached
         lows = rng.choice([3, 5, 17])
         his = max(2, n // lows)
@@ -238,6 +241,8 @@ def main(argv):
         c.broken.append("build of the repo working tree / hx_probing failed: " + blog[-800:])
         return c.finish(rule="build failed")
     c.proofs()
+    if c.tier == "thorough":
+        coqchk(c)
     drv, dlog = build_driver("C13")
     impl = hx_bin("hx_probing")
 
@@ -273,6 +278,27 @@ def main(argv):
                 c.broken.append("correspondence AutoProbing model vs util/probing_hash_table.hh: %d disagreement(s); smallest: history %r: after op %d model=%r impl=%r" % (
                     len(dis), l[:300], j - 1, (ta[j] if j < len(ta) else "<end>")[:200], (tb[j] if j < len(tb) else "<end>")[:200]))
 
+    # --- which proof cases of C13_double_preserves the histories exercise (from the implementation's own dumps):
+    #     doublings with / without a parked (wrapped) prefix, entries that move to the new half / stay
+    for (b, m, i, ops), o in zip(cases, impl_out[len(size_lines):]):
+        if not m.endswith("f") or o in ("TIMEOUT", "SKIPPED") or o.startswith("CRASH"):
+            continue
+        prev = None
+        for tok in o.split(" "):
+            st = parse_state(tok)
+            if st is None:
+                break
+            if prev is not None and st[1] == 2 * prev[1]:
+                before = [x.split(":")[0] for x in prev[4].split(",")]
+                after = [x.split(":")[0] for x in st[4].split(",")]
+                d = c.cov["distribution"]
+                key = "double/parked-prefix" if before and before[0] != "0" else "double/no-parked-prefix"
+                d[key] = d.get(key, 0) + 1
+                moved = sum(1 for x in after[prev[1]:] if x != "0")
+                d["double/entries-moved-to-new-half"] = d.get("double/entries-moved-to-new-half", 0) + moved
+                d["double/entries-staying-in-old-half"] = d.get("double/entries-staying-in-old-half", 0) + sum(1 for x in after[:prev[1]] if x != "0")
+            prev = st
+
     # --- direct oracle on the implementation (independent of the model)
     nfail = 0
     for (b, m, i, ops), o in zip(cases, impl_out[len(size_lines):]):
@@ -287,6 +313,12 @@ def main(argv):
                                                      "how": "echo '<history>' | hx_probing   (ops: F<key>,<value> FindOrInsert, I Insert, L<key> Find, U UnsafeMutableFind+set value)"})
             else:
                 c.violation("set-semantics: " + why, {"history": line_of(m, i, ops)[:3000], "why": why})
+
+    # --- memory safety of the same histories: ASan + UBSan build of the harness (an out-of-bounds bucket access
+    #     in Double / the probe loops is a violation with the history as replay)
+    if not c.violations:
+        sub = [l for (b, m, i, ops), l in zip(cases, lines) if not b.startswith("exhaustive/F^")]
+        asan_lines(c, "hx_probing", sub if c.tier == "thorough" else sub[:1500] + sub[-200:], "(bucket array = exact-size heap block)")
 
     # --- large histories: the real table against std::map inside the harness (set abstraction only,
     #     justified by the refinement theorems); crosses the 2 MiB malloc -> mmap transition of HugeRealloc
